@@ -842,6 +842,13 @@ func replay(path string) int {
 	for _, v := range res.Violations {
 		fmt.Println("  ", v.String())
 	}
+	if os.Getenv("SIM_RERECORD") != "" && len(res.Violations) > 0 {
+		v := res.Violations[0]
+		rf.Signature, rf.Oracle, rf.Features, rf.Detail, rf.EventHash = v.Signature(), v.Oracle, v.Features, v.Detail, res.EventHash
+		nb, _ := json.MarshalIndent(&rf, "", " ")
+		os.WriteFile(path, nb, 0644)
+		fmt.Println("re-recorded with signature", rf.Signature)
+	}
 	if v := hasSig(res, rf.Signature); v != nil {
 		findings := loadFindings()
 		if f := matchFinding(findings, v); f != nil {
